@@ -1398,7 +1398,8 @@ class Torrent():
 
         elif 'length' in info:
             # Validate info as singlefile torrent
-            utils.assert_type(md, ('info', 'length'), (int, float), must_exist=True)
+            utils.assert_type(md, ('info', 'length'), (int, float), must_exist=True,
+                              check=utils.is_file_length)
             utils.assert_type(md, ('info', 'md5sum'), (str,), must_exist=False, check=utils.is_md5sum)
 
             # Validate expected number of pieces
@@ -1423,7 +1424,8 @@ class Torrent():
             utils.assert_type(md, ('info', 'files'), (utils.Iterable,), must_exist=True)
             for i,fileinfo in enumerate(info['files']):
                 utils.assert_type(md, ('info', 'files', i), (abc.Mapping,), must_exist=True)
-                utils.assert_type(md, ('info', 'files', i, 'length'), (int, float), must_exist=True)
+                utils.assert_type(md, ('info', 'files', i, 'length'), (int, float), must_exist=True,
+                                  check=utils.is_file_length)
                 utils.assert_type(md, ('info', 'files', i, 'path'), (utils.Iterable,), must_exist=True)
                 utils.assert_type(md, ('info', 'files', i, 'md5sum'), (str,), must_exist=False, check=utils.is_md5sum)
                 for j,item in enumerate(fileinfo['path']):
